@@ -411,8 +411,12 @@ def daily_rules(t):
                 for k in keys:
                     if b.get(k) not in opts:
                         res.append(INVALID)
-                if not json_equal(opts, DEFAULT_OPTIONS[blk]):
-                    res.append(UNSPEC)  # the models hard-wire the three seasons / two day types; a changed option list is not pinned
+                if any(o not in DEFAULT_OPTIONS[blk] for o in opts):
+                    # the models hard-wire the three seasons / two day types: a month or day given any other name would belong
+                    # to no sub-model (never fitted, never predicted) - such an option list cannot be honoured and is invalid
+                    res.append(INVALID)
+                elif not json_equal(opts, DEFAULT_OPTIONS[blk]):
+                    res.append(UNSPEC)  # a reordered list or a proper subset of the known names is not pinned
     return _worst(*res)
 
 
